@@ -77,6 +77,17 @@ class Graph(NamedTuple):
     deps: List[Edge]
 
 
+def _indirect_deps(fis: FunctionInteractions) -> List[DDSPath]:
+    """
+    The paths loaded by a function, directly or through the functions it calls without keeping them.
+    """
+    res: List[DDSPath] = list(fis.indirect_deps)
+    for sub_fis in fis.parsed_body:
+        if sub_fis.store_path is None:
+            res += [p for p in _indirect_deps(sub_fis) if p not in res]
+    return res
+
+
 def _structure(
     fis: FunctionInteractions, indirect_refs: Dict[DDSPath, PyHash]
 ) -> Graph:
@@ -157,8 +168,8 @@ def _structure(
                 if k not in deps or deps[k].edge_type != DirectEdge:
                     deps[k] = Edge(sub_n.path, res_node.path, DirectEdge)
                 node_deps[res_node.node_hash].update(node_deps[sub_n.node_hash])
-            # Add the indirect references
-            for p in fis_.indirect_deps:
+            # Add the indirect references (also the ones of the sub-calls that are not kept)
+            for p in _indirect_deps(fis_):
                 assert p in all_refs, p
                 sig2 = all_refs[p]
                 if sig2 not in nodes:
